@@ -18,7 +18,7 @@ RULE = ('A real bp.agent.Agent (apps admin, fragment, bpsec, sand, safe as bp/ap
         'compared after every receive with the recorder invocations, the agent end-of-processing records and the '
         'bundles handed to the convergence layer (decoded independently).  Non-trivial = history holds a repeat, a '
         'look-alike and a destination matching >= 2 routes with different actions; distinct by SHA-1 of the case.')
-SHRINK_KEYS = ('bundles', 'routes')
+SHRINK_KEYS = ('bundles', 'routes', 'ops')
 ASSUMPTIONS = [
     'route patterns are anchored ("^...") or ".*", so re.match and re.search agree on what "matches" means',
     'fragments routed to "deliver" enter reassembly (C06); only their at-most-once processing is judged here',
@@ -78,9 +78,18 @@ def bundle_specs(draw):
     return [src, tval, seq, frag, draw(st.integers(0, len(DESTS) - 1)), rpt, damaged]
 
 
+def stack_ops():
+    send = st.tuples(st.just('send'), st.sampled_from([1, 3]), st.sampled_from([1, 2, 3]), st.booleans(), st.sampled_from([0, 0, 1])).map(list)
+    cut = st.tuples(st.sampled_from(['cut', 'close']), st.sampled_from([1, 2, 3])).map(list)
+    wait = st.tuples(st.just('wait'), st.sampled_from([0, 1000, 40000])).map(list)
+    return st.lists(st.one_of(send, send, send, cut, cut, wait), min_size=3, max_size=10)
+
+
 def strategy(tier):
     routes = st.lists(st.tuples(st.integers(0, len(PATTERNS) - 1), st.sampled_from(ACTIONS)).map(list), max_size=5)
-    return st.fixed_dictionaries({'routes': routes, 'bundles': st.lists(bundle_specs(), min_size=3, max_size=14)})
+    single = st.fixed_dictionaries({'routes': routes, 'bundles': st.lists(bundle_specs(), min_size=3, max_size=14)})
+    stack = st.fixed_dictionaries({'kind': st.just('stack'), 'ops': stack_ops(), 'keepalive': st.sampled_from([0, 0, 10])})
+    return st.one_of(single, single, single, stack)
 
 
 def pinned_cases():
@@ -88,6 +97,8 @@ def pinned_cases():
                                    'bundles': [[0, 1000, 0, None, 0, 1], [0, 1000, 0, None, 0, 1], [0, 1000, 1, None, 1, 0],
                                                [3, 1000, 0, None, 0, 0], [1, 1000, 0, None, 3, 0], [0, 1001, 0, None, 5, 0],
                                                [0, 1000, 0, [0, 10], 2, 0], [0, 1000, 0, [5, 10], 2, 0]]}
+    yield 'stack-reconnect', {'kind': 'stack', 'keepalive': 0, 'ops': [['send', 1, 3, True, 0], ['cut', 2], ['send', 1, 3, True, 0],
+                                                                     ['close', 3], ['send', 1, 3, True, 1]]}
     yield 'damaged-then-intact', {'routes': [[2, 'deliver']], 'bundles': [[0, 1000, 0, None, 0, 1, 1], [0, 1000, 0, None, 0, 1, 0],
                                                                        [0, 1000, 0, None, 0, 1, 0]]}
 
@@ -116,7 +127,111 @@ def ident_of(bundle):
     return ident
 
 
+def execute_stack(case):
+    ''' Three whole nodes in a line (n1 - n2 - n3), each a real BP agent bound through the real bp.cla adaptor to a
+    real TCPCL agent of its own (virtual bus, simulated network).  Bundles are originated at n1 / n3, sessions are
+    terminated or closed in between and re-made on demand.  Judged from the octets of the TCP connections: a bundle
+    that n2 received is transmitted to its next hop at most once, whatever happens to the sessions; and from the
+    recorder: each bundle is delivered at most once, and only at its destination. '''
+    from vlib import stack_world as sw, bpconv, ref9171 as r, tcpcl_world as tw
+    import dbus
+    out = Outcome()
+    world = sw.StackWorld([
+        dict(routes=[('^dtn://n[23]/', 2)], rx_routes=[('^dtn://n1/', 'deliver')]),
+        dict(routes=[('^dtn://n1/', 1), ('^dtn://n3/', 3)], rx_routes=[('^dtn://n2/', 'deliver'), ('^dtn://n[13]/', 'forward')]),
+        dict(routes=[('^dtn://n[12]/', 2)], rx_routes=[('^dtn://n3/', 'deliver')]),
+    ], tcpcl_kwargs=dict(keepalive_time=case.get('keepalive', 0)))
+    try:
+        seq = 0
+        sent = {}
+        carried = set()      # hosts whose sessions carried something before they were cut
+        cut_after_traffic = resend_after_cut = False
+        for op in case['ops']:
+            if op[0] == 'send':
+                _o, origin, dest, pump, rpt = op
+                if dest == origin:
+                    dest = 2
+                seq += 1
+                flags = (r.FLAG_RPT_RECEPTION | r.FLAG_RPT_FORWARD | r.FLAG_RPT_DELIVERY) if rpt else 0
+                pri = dict(version=7, flags=flags, crc_type=1, dest=['dtn', '//n%d/svc' % dest], src=['dtn', '//n%d/app' % origin],
+                           rpt=['dtn', '//n%d/' % origin] if rpt else ['dtn', 'none'], ts=[1000, seq], lifetime=3600000, frag=None)
+                bundle = {'primary': pri, 'blocks': [dict(type=1, num=1, flags=0, crc_type=2, data=(b'stack-%d' % seq).hex())]}
+                err = world.hosts[origin].originate(bpconv.to_repo(bundle))
+                if err is not None:
+                    out.fail('originate-raises:%s' % type(err).__name__, 'send_bundle at n%d raised %s: %s' % (origin, type(err).__name__, err))
+                sent[(('dtn', '//n%d/app' % origin), 1000, seq)] = dest
+                if cut_after_traffic:
+                    resend_after_cut = True
+                if pump:
+                    world.pump()
+                    carried.update([1, 2, 3])
+            elif op[0] in ('cut', 'close'):
+                host = world.hosts[op[1]]
+                for hdl in host.contacts():
+                    if op[0] == 'cut':
+                        if hdl.get_session_state() == 'established':
+                            tw.dbuscall(host.tctx, hdl, 'terminate', dbus.Byte(0))
+                    else:
+                        tw.dbuscall(host.tctx, hdl, 'close')
+                    if op[1] in carried:
+                        cut_after_traffic = True
+                world.pump()
+            elif op[0] == 'wait':
+                world.advance(op[1])
+        if not world.pump():
+            out.label('not-quiescent')
+        world.advance(1000)
+        # every bundle on every hop, from the wire
+        seen_on_hop = {}
+        for xfer in world.transfers():
+            if not xfer['complete']:
+                out.label('incomplete-transfer')
+                continue
+            try:
+                dec = r.decode(xfer['data'])
+            except Exception as err:
+                out.fail('wire-undecodable', 'a transfer n%s -> n%s does not decode as a bundle: %s' % (xfer['src'], xfer['dst'], err))
+                continue
+            pri = dec['primary']
+            ident = (tuple(pri['src']), pri['ts'][0], pri['ts'][1])
+            seen_on_hop.setdefault((xfer['src'], xfer['dst'], ident), []).append(xfer['link'])
+        for (src, dst, ident), links in sorted(seen_on_hop.items(), key=repr):
+            out.count('hop-transmissions')
+            if len(links) > 1:
+                own = r.eid_text(list(ident[0])).startswith('dtn://n%d/' % src)
+                if own:
+                    out.count('originated-bundle-transmitted-again')
+                else:
+                    out.fail('forwarded-twice', 'n%d forwarded the bundle %s to n%d %d times (on connections %s): ops %s'
+                             % (src, ident, dst, len(links), links, case['ops']))
+        for index, host in world.hosts.items():
+            counts = {}
+            for rec in host.records():
+                ident = (tuple(r.eid_parts(rec['source'])) if hasattr(r, 'eid_parts') else rec['source'], rec['ts'][0], rec['ts'][1])
+                counts[(rec['source'], rec['ts'])] = counts.get((rec['source'], rec['ts']), 0) + 1
+                if not rec['dest'].startswith('dtn://n%d/' % index):
+                    out.fail('delivered-elsewhere', 'n%d delivered a bundle for %s' % (index, rec['dest']))
+            for key, num in counts.items():
+                out.count('deliveries')
+                if num > 1:
+                    out.fail('delivered-twice', 'n%d delivered bundle %s %d times: ops %s' % (index, key, num, case['ops']))
+        for esc in world.escapes():
+            # not judged: C10 says nothing about the adaptor's bookkeeping of contacts that come and go
+            out.count('stack-escape:%s@%s' % (esc.exc_type, esc.frame))
+        out.label('stack')
+        if cut_after_traffic:
+            out.label('stack:session-ended-after-traffic')
+        out.nontrivial = cut_after_traffic and resend_after_cut
+        if out.nontrivial:
+            out.label('stack:send-after-session-ended')
+    finally:
+        world.close()
+    return out
+
+
 def execute(case):
+    if case.get('kind') == 'stack':
+        return execute_stack(case)
     from vlib import bp_world as bw, ref9171 as r
     out = Outcome()
     bw.reset()
